@@ -125,7 +125,7 @@ func (e *SEnv) lookupIdent(name string) (Val, bool) {
 		// declaration dominates the current program point
 		var best *ssa.Alloc
 		bestDepth := -1
-		for _, l := range e.frame.fn.Locals {
+		for _, l := range frameAllocs(e.frame.fn) {
 			if l.Comment != name || l.Block() == nil {
 				continue
 			}
@@ -943,6 +943,33 @@ func (e *SEnv) evalCall(n *SCall) Val {
 		return specBool(e.r.chanClosed(e.st, ch))
 	case "isnil":
 		return specBool(e.specEq(e.eval(n.Args[0]), specNil))
+	case "keyof": // keyof(x): the map-key identity of the value x (what `forall k in keys(m)` binds k to)
+		return specInt(e.r.mapKeyTerm(e.st, e.eval(n.Args[0])))
+	case "asptr": // asptr(x, "T"): the pointer of type *T (T a named type of the package under verification) held by the interface value x
+		iv := e.eval(n.Args[0])
+		if iv.T == nil || !isIface(iv.T) || len(iv.C) != 2 {
+			sfail("asptr: interface value expected")
+		}
+		tn := n.Args[1].(*SStrL).V
+		if e.pkg == nil {
+			sfail("asptr: no package in scope")
+		}
+		obj := e.pkg.Pkg.Scope().Lookup(tn)
+		if obj == nil {
+			sfail("asptr: unknown type %s", tn)
+		}
+		return Val{T: types.NewPointer(obj.Type()), C: []Term{iv.C[1]}}
+	case "holdsptr": // holdsptr(x, "T"): the interface value x holds a non-nil *T
+		iv := e.eval(n.Args[0])
+		if iv.T == nil || !isIface(iv.T) || len(iv.C) != 2 {
+			sfail("holdsptr: interface value expected")
+		}
+		tn := n.Args[1].(*SStrL).V
+		obj := e.pkg.Pkg.Scope().Lookup(tn)
+		if obj == nil {
+			sfail("holdsptr: unknown type %s", tn)
+		}
+		return specBool(And(Eq(iv.C[0], typeTag(types.NewPointer(obj.Type()))), Ne(iv.C[1], Zero)))
 	case "typeis": // typeis(x, "pkg.Type")
 		v := e.eval(n.Args[0])
 		s := n.Args[1].(*SStrL).V
@@ -1126,4 +1153,36 @@ func (e *SEnv) evalMod(x SExpr) ModTarget {
 	}
 	sfail("unsupported modifies target")
 	return ModTarget{}
+}
+
+var frameAllocCache = map[*ssa.Function][]*ssa.Alloc{}
+
+// frameAllocs: the named variables of fn -- its stack locals and the heap-allocated ones (variables captured by a
+// function literal or whose address escapes are `new` instructions, not Locals).
+func frameAllocs(fn *ssa.Function) []*ssa.Alloc {
+	symMu.Lock()
+	defer symMu.Unlock()
+	if a, ok := frameAllocCache[fn]; ok {
+		return a
+	}
+	out := append([]*ssa.Alloc{}, fn.Locals...)
+	seen := map[*ssa.Alloc]bool{}
+	for _, l := range out {
+		seen[l] = true
+	}
+	isParam := map[string]bool{}
+	for _, p := range fn.Params {
+		isParam[p.Name()] = true
+	}
+	for _, b := range fn.Blocks {
+		for _, in := range b.Instrs {
+			// (the heap copy of a captured PARAMETER is not offered: a formal's name keeps meaning its entry value)
+			if a, ok := in.(*ssa.Alloc); ok && a.Heap && a.Comment != "" && !seen[a] && !isParam[a.Comment] {
+				seen[a] = true
+				out = append(out, a)
+			}
+		}
+	}
+	frameAllocCache[fn] = out
+	return out
 }
